@@ -105,6 +105,47 @@ let string_of_operand = function
   | ORegPair (a, b) -> Printf.sprintf "regpair,%d,%d,%s" (int_of_n a) (int_of_n b) (bs (Model.x_regpair_legal a b))
 let ascii_of l = String.concat "" (List.map (fun c -> String.make 1 (Char.chr (int_of_n c))) l)
 
+(* ---- virtual files / CLI flows (MVirtualFile) ---- *)
+let cocofile_of_string s = match split ',' s with
+  | [n; x; t; d; l; e; dat] ->
+      { f_name = unhex n; f_ext = unhex x; f_type = nint t; f_dtype = nint d; f_load = nint l; f_exec = nint e; f_data = unhex dat }
+  | _ -> failwith ("bad cocofile: " ^ s)
+let cocofiles_of_string s = if s = "-" then [] else List.map cocofile_of_string (List.filter (fun x -> x <> "") (split ';' s))
+let string_of_cocofile f =
+  Printf.sprintf "%s,%s,%d,%d,%d,%d,%s" (hex_or_dash f.f_name) (hex_or_dash f.f_ext) (int_of_n f.f_type) (int_of_n f.f_dtype)
+    (int_of_n f.f_load) (int_of_n f.f_exec) (hex_or_dash f.f_data)
+let string_of_cocofiles fs = match fs with [] -> "-" | _ -> String.concat ";" (List.map string_of_cocofile fs)
+let vkind_of_string = function "cas" -> KCas | "bin" -> KBin | "dsk" -> KDsk | s -> failwith ("bad kind: " ^ s)
+let string_of_vkind = function KCas -> "cas" | KBin -> "bin" | KDsk -> "dsk"
+let old_of_string s = if s = "absent" then None else Some (unhex s)
+let string_of_written = function None -> "NONE" | Some img -> hex_or_dash img
+let string_of_err = function
+  | EDiag c -> "D" ^ string_of_int (int_of_n c) | EInternal c -> "I" ^ string_of_int (int_of_n c)
+  | EFuel -> "FUEL" | EUnmod -> "UNMOD"
+let string_of_event = function
+  | EListed f -> "L" ^ string_of_cocofile f
+  | EFile (n, nm) -> "F" ^ string_of_int (int_of_nat n) ^ ":" ^ hex_or_dash nm
+  | ESaved k -> "S" ^ string_of_vkind k
+  | EMoreThanOne -> "M"
+  | EError e -> "E" ^ string_of_err e
+  | ENoName k -> "N" ^ string_of_vkind k
+  | EUnable (k, e) -> "U" ^ string_of_vkind k ^ ":" ^ string_of_err e
+let string_of_events l = match l with [] -> "-" | _ -> String.concat "|" (List.map string_of_event l)
+(* a host file system: name=hex;name=hex (names are plain tokens); "-" = empty *)
+let path_of_string s = List.init (String.length s) (fun i -> n_of_int (Char.code s.[i]))
+let fs_of_string s =
+  let pairs = if s = "-" then [] else List.map (fun kv -> match split '=' kv with
+      | [k; v] -> (k, unhex v) | _ -> failwith ("bad fs entry: " ^ kv)) (List.filter (fun x -> x <> "") (split ';' s)) in
+  (List.map fst pairs, fun p -> List.assoc_opt p (List.map (fun (k, v) -> (path_of_string k, v)) pairs))
+let opt_path s = if s = "-" then None else Some (path_of_string s)
+let dump_fs names fs =
+  let names = List.sort_uniq compare names in
+  match names with [] -> "-" | _ ->
+  String.concat ";" (List.map (fun k -> k ^ "=" ^ (match fs (path_of_string k) with None -> "ABSENT" | Some c -> hex_or_dash c)) names)
+let names_of l = List.filter (fun x -> x <> "-") l
+let hops_of_string s = if s = "-" then [] else
+  List.map (fun x -> if x = "S" then SaveReopen else Add (cocofile_of_string x)) (List.filter (fun x -> x <> "") (split ';' s))
+
 let handle line =
   match split ' ' line with
   | ["caswrite"; fs] -> hex_or_dash (Model.x_cas_write (cfiles_of_string fs))
@@ -135,6 +176,27 @@ let handle line =
       String.concat ";" (List.filter_map (fun (pg, op) -> match Model.x_opcode_entry pg op with
         | Some (m, a) -> Some (Printf.sprintf "%s,%s,%d,%d" (ascii_of m) (name a) (int_of_n pg) (int_of_n op))
         | None -> None) Model.x_all_opcodes)
+  | ["vfsniff"; bs] ->
+      string_of_res (fun (fl, k) -> string_of_vkind k ^ " " ^ string_of_cocofiles fl) (Model.x_vf_sniff (unhex bs))
+  | ["vfstore"; k; app; old; fs] ->
+      string_of_res string_of_written (Model.x_vf_store (vkind_of_string k) (app = "1") (old_of_string old) (cocofiles_of_string fs))
+  | ["vfconvert"; k; req; app; src; old] ->
+      let req = if req = "-" then None else Some (List.map unhex (split ',' req)) in
+      string_of_res string_of_written (Model.x_vf_convert (vkind_of_string k) req (app = "1") (unhex src) (old_of_string old))
+  | ["vfhist"; k; ops] -> string_of_res hex_or_dash (Model.x_vf_image_after (vkind_of_string k) (hops_of_string ops))
+  | ["futil"; fs; host; app; lst; tb; tc; td; files] ->
+      let (names, f) = fs_of_string fs in
+      let a = { a_host = path_of_string host; a_append = (app = "1"); a_list = (lst = "1");
+                a_to_bin = opt_path tb; a_to_cas = opt_path tc; a_to_dsk = opt_path td;
+                a_files = (if files = "-" then None else Some (List.map unhex (split ',' files))) } in
+      let ((f', ev), x) = Model.x_vf_file_util f a in
+      Printf.sprintf "%d %s %s" (int_of_n x) (string_of_events ev) (dump_fs (names @ names_of [host; tb; tc; td]) f')
+  | ["asmsave"; fs; tb; tc; td; name; app; pname; origin; image] ->
+      let (names, f) = fs_of_string fs in
+      let a = { s_to_bin = opt_path tb; s_to_cas = opt_path tc; s_to_dsk = opt_path td; s_name = unhex name; s_append = (app = "1") } in
+      let p = { p_name = unhex pname; p_origin = nint origin; p_image = unhex image } in
+      let (f', ev) = Model.x_vf_asm_save f a p in
+      Printf.sprintf "%s %s" (string_of_events ev) (dump_fs (names @ names_of [tb; tc; td]) f')
   | _ -> "ERROR unknown command"
 
 let () =
